@@ -1143,6 +1143,15 @@ def call_ext(interp, dotted: str, args: List[V], kwargs: Dict[str, V], node, cc)
             gs.append(gp)
         r = cat(interp, gs)
         return r if r is not None else Term("concatenate", [seq])
+    if d == "numpy.meshgrid" and len(args) == 2:
+        x = args[0] if isinstance(args[0], Grid) else to_grid(interp, args[0])
+        y = args[1] if isinstance(args[1], Grid) else to_grid(interp, args[1])
+        ind = kwargs.get("indexing", Const("xy"))
+        if isinstance(x, Grid) and isinstance(y, Grid) and x.ndim == 1 and y.ndim == 1 and isinstance(ind, Const) and ind.v in ("xy", "ij"):
+            if ind.v == "xy":      # shape (len(y), len(x)):  X[i, j] = x[j],  Y[i, j] = y[i]
+                return TupleV([Grid([y.dims[0], x.dims[0]], x.elem), Grid([y.dims[0], x.dims[0]], y.elem)])
+            return TupleV([Grid([x.dims[0], y.dims[0]], x.elem), Grid([x.dims[0], y.dims[0]], y.elem)])
+        return Top("meshgrid of unstructured values")
     if d == "numpy.diff" and len(args) == 1 and not kwargs:
         x = args[0] if isinstance(args[0], Grid) else to_grid(interp, args[0])
         if isinstance(x, Grid) and x.ndim == 1:
@@ -1372,7 +1381,7 @@ def call_builtin(interp, name, args, kwargs, node, cc) -> Optional[V]:
             return interp.new_list(copy_items(v.items), "list")
         if isinstance(v, TupleV):
             return interp.new_list([Elem(x) for x in v.items]) if name == "list" else v
-        if isinstance(v, Grid) and v.ndim >= 1 and len(v.dims[0]) == 1:
+        if isinstance(v, Grid) and v.ndim >= 1:
             l = interp.new_list()
             interp._splice_into(l.items, v)
             return l
